@@ -99,6 +99,20 @@ theorem rr_current_loses_share :
   ⟨[0, 1, 0, 1], by decide⟩
 
 
+/-! ## random strategy -/
+
+/-- **`rnd` always hands out a slot of the route's ring** (a target of the route with positive weight), under
+every schedule, next to any other lookups and table replacements: with `randIntn` = math/rand's internally
+locked top-level generator one pick is one micro-step yielding an index below the ring size. -/
+theorem rnd_pick_is_a_ring_slot (compile : Nat → Option Nat) (build : Nat → Nat) (size : Nat) (hsize : 0 < size)
+    (ts : List Th) (s : State) (sch : List Nat)
+    (hsteps : ∀ t ∈ ts, ∀ f ∈ t.steps, SysStep compile build f)
+    (hI : CacheInv compile size s.cache) (hJ : ∀ t ∈ ts, LocalInv compile build t.loc) :
+    ∀ t ∈ (run sch ts s).2, t.loc.dead = false ∧ ∀ e ∈ t.loc.rpicks, e.2 < e.1 := by
+  intro t ht
+  have h := (sys_inv compile build size hsize sch ts s hsteps hI hJ).2 t ht
+  exact ⟨h.1, h.2.2.2.2.2.2⟩
+
 /-! ## the host-pattern cache -/
 
 /-- **The cache stays within its configured size and never fails a lookup.**  Any threads made of repaired
@@ -158,7 +172,7 @@ theorem redirect_depends_only_on_request (compile : Nat → Option Nat) (build :
     (hI : CacheInv compile size s.cache) (hJ : ∀ t ∈ ts, LocalInv compile build t.loc) :
     ∀ t ∈ (run sch ts s).2, ∀ e ∈ t.loc.locs, e.2 = some (build e.1) := by
   intro t ht
-  exact ((sys_inv compile build size hsize sch ts s hsteps hI hJ).2 t ht).2.2.2.2.2
+  exact ((sys_inv compile build size hsize sch ts s hsteps hI hJ).2 t ht).2.2.2.2.2.1
 
 /-- The form found on the unchanged tree (URL stored on the shared target by `Lookup`, read back by
 `ServeHTTP`): two requests, the first is answered with the second one's Location. -/
@@ -173,11 +187,13 @@ theorem redirect_current_crosstalk :
 
 /-- **The only shared effect of a lookup is advancing load balancing.**  After any schedule of repaired
 lookups, the state differs from the initial one only in the cursor — advanced by exactly the number of
-picks handed out — and in the cache contents (which `globcache_inv` shows to be unobservable). -/
+picks handed out —, in the cache contents (which `globcache_inv` shows to be unobservable) and in the state of
+math/rand's generator when the strategy is `rnd`: all three are load balancing / caching, none is a routing input. -/
 theorem lookup_frame (compile : Nat → Option Nat) (build : Nat → Nat) (ts : List Th) (s : State) (sch : List Nat)
     (hsteps : ∀ t ∈ ts, ∀ f ∈ t.steps, LookupStep compile build f) :
     let r := run sch ts s
-    r.1 = { s with total := s.total + ((allPicks r.2).length - (allPicks ts).length), cache := r.1.cache } ∧
+    r.1 = { s with total := s.total + ((allPicks r.2).length - (allPicks ts).length), cache := r.1.cache,
+                    rng := r.1.rng } ∧
     (allPicks ts).length ≤ (allPicks r.2).length := by
   have h := run_preserves (FrameInv compile build s (allPicks ts).length)
     (fun i ts' s' h => frameInv_step compile build s _ i ts' s' h) sch ts s ⟨hsteps, rfl, rfl, rfl, Nat.le_refl _⟩
@@ -192,7 +208,7 @@ theorem lookup_frame (compile : Nat → Option Nat) (build : Nat → Nat) (ts : 
       = s.total + ((allPicks (run sch ts s).2).length - (allPicks ts).length) := by omega
   generalize (allPicks (run sch ts s).2).length = np at e ⊢
   cases hr1 : (run sch ts s).1 with
-  | mk total cache redirect table =>
+  | mk total cache redirect table rng =>
     rw [hr1] at e hr ht
     simp only at e hr ht
     simp [e, hr, ht]
@@ -223,7 +239,7 @@ builders: lookups over glob hosts exceeding the cache (patterns 1,2,3, size 2), 
 3) and a redirect, next to a goroutine replacing the table. -/
 example (compile : Nat → Option Nat) (build : Nat → Nat) (sch : List Nat) :
     let q1 : Req := { id := 1, pats := [1, 2, 3], ring := some 3, redirect := true }
-    let q2 : Req := { id := 2, pats := [3, 2, 1], ring := none, redirect := true }
+    let q2 : Req := { id := 2, pats := [3, 2, 1], ring := some 4, rnd := true, redirect := true }
     let ts := [lookupThread compile build [q1, q2], lookupThread compile build [q2, q1], swapThread [1, 2]]
     (run sch ts { cache := Cache.new 2 }).1.cache.m.length ≤ 2 := by
   intro q1 q2 ts
@@ -250,5 +266,10 @@ example :
     finished r.2 = true ∧ (outputs r).map (·.locs) = [[(1, some 101)], [(2, some 102)]] ∧
       r.1.total = 1 ∧ r.1.cache.m.length = 2 ∧ cacheOK 2 (keys r.1.cache.m) r.1.cache.l r.1.cache.h r.1.cache.n = true := by
   decide
+
+/-- two goroutines picking with `rnd` on a ring of 3: indices below 3, generator state advanced twice -/
+example :
+    let r := run [0, 1, 1, 0] [mkThread [rndPick 3, rndPick 3], mkThread [rndPick 3, rndPick 3]] { rng := 7 }
+    (outputs r).map (·.rpicks) = [[(3, 1), (3, 1)], [(3, 0), (3, 0)]] ∧ r.1.total = 0 := by decide
 
 end Fabio.Props.C06
